@@ -953,3 +953,87 @@ M("C20-owned-publication-skips-correlation", "C20", [(PUB, '''        let mut pu
         }
         publication''')],
   ["C20/publication/OwnedResponseTarget/correlation"])
+
+# ---------------------------------------------------------------------------------------------- C18
+M("C18-qos2-ignores-release-list", "C18", [(SMOD, '''            OpKind::PublishExactlyOnce => {
+                self.data.outbound.has_retained(op.packet_id)
+                    || self.data.outbound.has_pending_release(op.packet_id)
+            }''', '''            OpKind::PublishExactlyOnce => self.data.outbound.has_retained(op.packet_id),''')],
+  ["C18/status/table"])
+M("C18-generation-checked-last", "C18", [(SMOD, '''        if op.generation != self.data.generation() {
+            return OpStatus::Invalidated;
+        }
+
+        let pending = match op.kind {''', '''        let pending = match op.kind {'''), (SMOD, '''        if pending {
+            OpStatus::Pending
+        } else {
+            OpStatus::Complete
+        }''', '''        if pending {
+            OpStatus::Pending
+        } else if op.generation != self.data.generation() {
+            OpStatus::Invalidated
+        } else {
+            OpStatus::Complete
+        }''')],
+  ["C18/status/table"])
+M("C18-subscribe-handle-kind", "C18", [(OPS, '''        Ok(Op::new(
+            OpKind::Subscribe,''', '''        Ok(Op::new(
+            OpKind::Unsubscribe,''')],
+  ["C18/handle/subscribe/kind"])
+M("C18-suback-reason-swallowed", "C18", [(INB, '''                debug!("Processed SUBACK packet_id={=u16}", ack.packet_id);
+                for &code in ack.codes {
+                    ReasonCode::from(code).as_result()?;
+                }''', '''                debug!("Processed SUBACK packet_id={=u16}", ack.packet_id);
+                for &code in ack.codes {
+                    let _ = ReasonCode::from(code).as_result();
+                }''')],
+  ["C18/final-ack/SubAck/remove-then-report"])
+M("C18-puback-reason-before-removal", "C18", [(INB, '''                if !self.outbound.ack_packet(ack.packet_id) {
+                    debug!("Ignoring stale PUBACK for packet id {=u16}", ack.packet_id);
+                    return Ok(false);
+                }''', '''                ack.reason.code().as_result()?;
+                if !self.outbound.ack_packet(ack.packet_id) {
+                    debug!("Ignoring stale PUBACK for packet id {=u16}", ack.packet_id);
+                    return Ok(false);
+                }''')],
+  ["C18/final-ack/PubAck/remove-then-report"])
+M("C18-rejected-swallowed", "C18", [(INB, '''            Err(Error::Peer(err)) => Err(Error::Peer(err)),''', '''            Err(Error::Peer(_)) => Ok(None),''')],
+  ["C18/final-ack/rejected-surfaced"])
+M("C18-pubrec-reason-after-release", "C18", [(INB, '''                rec.reason.code().as_result()?;
+                if queue_release {
+                    check_pubrel_size(
+                        runtime.maximum_packet_size,
+                        rec.packet_id,
+                        ReasonCode::Success,
+                    )?;
+                    self.outbound
+                        .queue_release(rec.packet_id, ReasonCode::Success)?;
+                    debug!("Queued PUBREL for packet_id={=u16}", rec.packet_id);
+                }''', '''                if queue_release {
+                    check_pubrel_size(
+                        runtime.maximum_packet_size,
+                        rec.packet_id,
+                        ReasonCode::Success,
+                    )?;
+                    self.outbound
+                        .queue_release(rec.packet_id, ReasonCode::Success)?;
+                    debug!("Queued PUBREL for packet_id={=u16}", rec.packet_id);
+                }
+                rec.reason.code().as_result()?;''')],
+  ["C18/final-ack/PubRec/failure-completes"])
+M("C18-handle-stale-generation", "C18", [(OPS, '''        Ok(Op::new(
+            OpKind::Unsubscribe,
+            packet_id,
+            self.session.data.generation(),
+        ))''', '''        Ok(Op::new(OpKind::Unsubscribe, packet_id, 0))''')],
+  ["C18/handle/unsubscribe/generation"])
+M("C18-has-retained-compares-offset", "C18", [(OUT, '''    pub(super) fn has_retained(&self, packet_id: u16) -> bool {
+        self.retained
+            .iter()
+            .any(|entry| entry.packet_id == packet_id)
+    }''', '''    pub(super) fn has_retained(&self, packet_id: u16) -> bool {
+        self.retained
+            .iter()
+            .any(|entry| entry.packet_id >= packet_id)
+    }''')],
+  ["C18/status/lookup/has_retained"])
